@@ -28,13 +28,52 @@ def sig(c):
     return "script"
 
 
+TEXT_CSV = {"bitcoin-v7": 1008, "liquid-v7": 10080, "liquid-v6": 60, "bitcoin-v6": 1008}
+
+
+def expected_by_text(c):
+    """The three shapes of the property text on tagged items (explanation aid for the replay only;
+    the verdict is computed by c02_monitor inside Coq)."""
+    std = c.get("flags") == "standard"
+    same = c.get("same_key")
+    taker_ok = (lambda t: t in ("sigTaker", "sigMaker")) if same else (lambda t: t == "sigTaker")
+    maker_ok = (lambda t: t in ("sigTaker", "sigMaker")) if same else (lambda t: t == "sigMaker")
+    sigs = ("sigTaker", "sigMaker", "sigOther")
+    fails = lambda t: t == "empty" or ((not std) and t in sigs and not maker_ok(t))
+    out = []
+    n = c.get("max_witness_items", 4)
+    sq, ver = c.get("sequence"), c.get("tx_version")
+    csv_ok = (ver % 2**32) >= 2 and not (sq >> 31) & 1 and not (sq >> 22) & 1 and (sq % 65536) >= TEXT_CSV[c.get("chain")]
+    for m in sigs:
+        if maker_ok(m) and csv_ok:
+            out.append([m])
+    for st in sigs:
+        if not taker_ok(st):
+            continue
+        for sm in sigs:
+            if maker_ok(sm):
+                for x in sigs + ("empty",):
+                    if fails(x) and n >= 3:
+                        out.append([st, sm, x])
+        if c.get("hash_is_sha256_of") == "preimage32" and n >= 4:
+            for y in sigs + ("empty",):
+                for x in sigs + ("empty",):
+                    if fails(y) and fails(x):
+                        out.append([st, "preimage32", y, x])
+    return out
+
+
 def describe(c):
     fam = c.get("family")
     if fam == "engine":
-        return ("btcd engine on the node's %s opening script (sequence %s, tx version %s, %s flags, hash = sha256(%s), same_key=%s) "
-                "accepts exactly %s; the property allows only sigTaker+32-byte preimage, sigTaker+sigMaker, or sigMaker with sequence >= CSV of the text"
+        acc = c.get("accepted_witness_stacks") or []
+        exp = expected_by_text(c)
+        wrong_acc = [a for a in acc if a not in exp]
+        wrong_rej = [e for e in exp if e not in acc]
+        return ("btcd engine on the node's %s opening script (sequence %s, tx version %s, %s flags, hash = sha256(%s), same_key=%s): "
+                "accepted although the property forbids it: %s; rejected although it is one of the three allowed spends: %s"
                 % (c.get("chain"), c.get("sequence"), c.get("tx_version"), c.get("flags"), c.get("hash_is_sha256_of"),
-                   c.get("same_key"), json.dumps(c.get("accepted_witness_stacks"))))
+                   c.get("same_key"), json.dumps(wrong_acc[:6]), json.dumps(wrong_rej[:6])))
     if fam == "chain":
         return "opening script of %s commits to csv %s / policy csv %s, not the property's number" % (
             c.get("chain"), c.get("script_csv"), c.get("policy_csv"))
